@@ -236,6 +236,32 @@ func genC15(e *emitter, tier string, seed uint64) {
 			}
 		}
 	}
+	// runs of leading '1's followed, after one more digit, by an interior '1' ("11x1…", "111x1…", "1111x1…"): every number of
+	// leading ones from none to two too many — a canonical-form test that looks at the boundary of the run only is
+	// fooled by the interior '1' when two or more are missing
+	for z := 1; z <= 3; z++ {
+		found := 0
+		for try := 0; try < 4000 && found < 2; try++ {
+			h := r.bytes(20)
+			for k := 0; k < z; k++ {
+				h[k] = 0
+			}
+			if h[z] == 0 {
+				continue
+			}
+			ad, _ := bscript.NewAddressFromPublicKeyHash(h, true)
+			a := ad.AddressString
+			ones := len(a) - len(strings.TrimLeft(a, "1"))
+			if ones != z+1 || len(a) < ones+2 || a[ones+1] != '1' {
+				continue
+			}
+			found++
+			body := a[ones:]
+			for k := 0; k <= ones+2; k++ {
+				str(strings.Repeat("1", k)+body, "leading-ones-run")
+			}
+		}
+	}
 	for i := 0; i < nAddr; i++ {
 		h := r.bytes(20)
 		if r.chance(20) {
